@@ -22,7 +22,7 @@ T = {
          "their implementing definition by ordinary commands, and implementing definitions with a doccomment of their own; T_agg is its special case. "
          "Tie: `documented` list and page text of the real pipeline vs model vs independent Python specification (duplicated elements, split "
          "declarations, documented implementations included).",
-         "Well-formedness hypotheses are explicit and decidable (itemsWf / itemsWfS: arity, balanced blocks, a declaration is followed by its definition in the same list); the share of generated modules inside each domain is in the evidence; K2 (command named generic_command) is a known finding.",
+         "Well-formedness hypotheses are explicit and decidable (itemsWf / itemsWfS: arity, balanced blocks, a declaration is followed by its definition in the same list); the share of generated modules inside each domain is in the evidence; K2 (command named generic_command) and K8 (a declaration that is never implemented swallows the next definition anywhere later; K8_stale_declaration_swallows_later_definition pins it on the model) are open known findings.",
          "Lean 4 refinement proof (stack machine ⊑ structural spec) + differential correspondence"),
  'C03': ("T_agg + C03_*: name never stripped, parameters stripped position-wise for EVERY strip function, **kwargs iff trigger in doc or a "
          "cmake_parse_arguments call directly in the body (not in nested/sibling/later definitions). Tie: kwargs-profile modules with random trigger strings "
@@ -63,7 +63,7 @@ T = {
  'C11': ("C11_name/C11_expectfail/C11_addtest_sig/C11_warnings: name = argument after NAME, EXPECTFAIL by exact element, add_test signature drops NAME and the "
          "name by position only; sections as own entries in order (T_agg). Tie: keyword-profile modules.",
          "Inputs with NAME twice are outside the quantifier.", "Lean 4 proof + differential correspondence"),
- 'C12': ("C12_frame (over/underline exactly the title's length), C12_one_module, C12_names/prefix/ext/injective (K4 excluded explicitly), C12_module_doc, "
+ 'C12': ("C12_frame (over/underline exactly the title's length in code points), C12_one_module, C12_names/prefix/ext/injective (K4 excluded explicitly; no side condition on the separator since the repair a0734fb), C12_module_doc, "
          "C01_module_doc. Tie: trees x prefixes x separators x extension flags x header lists x input spellings.", "os.path.relpath/abspath trusted.",
          "Lean 4 proof + differential correspondence on directory trees"),
  'C13': ("C13_writes/C13_content over the Walk model (explicit tree, listing order, arbitrary exclusion predicate): written paths are exactly the pages of processed "
@@ -71,7 +71,7 @@ T = {
          "sandbox, complete listing of the output directory, pages vs lone-file pages.", "File system and pathspec are parameters; K4 (case-colliding names) excluded.",
          "Lean 4 proof + differential correspondence on directory trees"),
  'C14': ("C14_entries/closed/title/reachable over the Walk model. Tie + oracle: every toctree entry of every REAL index.rst is resolved against the real output "
-         "tree and reachability from the top index is walked.", "module_path_separator = '.' (the property's option combinations).",
+         "tree and reachability from the top index is walked.", "The generator varies rst.module_path_separator (D17: the top index title was wrong for every separator other than '.', repaired by 8466859).",
          "Lean 4 proof + differential correspondence on directory trees"),
  'C15': ("C15_iff (processed iff neither the file nor a directory on the way is excluded), C15_no_descend, C15_root, C15_order (invariance under every "
          "permutation of every directory listing, for an ARBITRARY exclusion predicate), C15_old_* (the pre-repair loop violates it). Tie: pathspec bits computed "
@@ -84,16 +84,23 @@ T = {
          "order. Hash seed and repetition have no counterpart in a functional model: carried by the correspondence (two cwds, two locations, permuted listings, repeated "
          "runs, longer runs, PYTHONHASHSEED children, children under other locales/encodings, time zones, terminal sizes and umasks).", "K7 (patterns match absolute paths above the input) is an open known finding.",
          "Lean 4 proof (history independence) + differential variants on the real code"),
- 'C18': ("C18_none (no write without output directory), C18_stdout (stdout = pages of the -o run, in order, each + two newlines), C18_same_pages. 'Inside the output "
+ 'C18': ("C18_none (no write without output directory), C18_special_missing (a path that does not exist or is no regular file/directory writes and prints nothing), C18_stdout (stdout = pages of the -o run, in order, each + two newlines), C18_same_pages. 'Inside the output "
          "directory' is by construction in the model; on the real code it is a sandbox snapshot (path, sha256) before/after.", "open()/makedirs trusted.",
          "Lean 4 proof + sandbox snapshots of the real code"),
  'C19': ("C19_verbatim/argv/recursive/equiv/fatal over genArgv + CMake list flattening; C19_K5_counterexample. PARTIAL by nature: CMake's evaluation and "
          "execute_process are trusted; tied by real `cmake -P` runs (argv recorder, working-tree CMinx vs direct CLI, failing child).", "K5 open known finding.",
          "Lean 4 proof of the argument-vector logic + real cmake -P runs"),
- 'C20': ("40 theorems: frame/reframe, per-line indentation of paragraphs/fields/list items/options/headings, C20_subtree (an element inside d directives is "
-         "rendered at depth d), added_at_depth for every API call, options-first for arbitrary interleavings, insertion order, clear. Purity/repeatability of the "
-         "Python object is established by the correspondence (pickle equality around every to_text()), not by a theorem.",
-         "section/doctest/simple_table are outside the quantifier.", "Lean 4 proof over API histories + differential correspondence with purity check"),
+ 'C20': ("80 theorems. C20.lean (40): frame/reframe, per-line indentation of paragraphs/fields/list items/options/headings, C20_subtree (an element inside d "
+         "directives is rendered at depth d), added_at_depth for every API call, options-first for arbitrary interleavings, insertion order, clear. C20Full.lean / "
+         "C20Depth.lean over RstFull.lean, the model of the WHOLE writer API (sections, doctests, simple tables, write_to_file): the pipeline's writer is embedded "
+         "(C20F_embed_*), C20F_levels_history (in every document reachable from a fresh writer through any history of calls, raising ones included, every section "
+         "carries the header string configured for its section level), C20F_section_frame/_retitle, C20F_section_overflow + C20F_error_skipped (a level beyond the "
+         "header list raises and leaves the document unchanged), C20F_appended_at_depth (an element appended through any handle is printed at 3 x the number of "
+         "directives above it up to the nearest section), C20F_order, C20F_table_row_length. Purity/repeatability of the Python object is established by the "
+         "correspondence (pickle equality around every to_text() and around every rejected call), not by a theorem.",
+         "The text of doctests and simple tables and sections opened below a directive (reST has none; the nested writer restarts at column 0, "
+         "C20F_section_ignores_depth) are modelled and compared but outside the property's quantifier: a difference there breaks the correspondence and is "
+         "not reported as a failing input.", "Lean 4 proof over API histories (invariant by induction over calls, embedding of the pipeline's writer) + differential correspondence with purity check"),
 }
 
 
